@@ -110,9 +110,21 @@ func strOf(v *decode.Value) (string, error) {
 	return s.Actual, nil
 }
 
-// observeTree decodes the file with the named format and reads the flows out
-// of the decode tree.
+// observeTree is observeTreeAll for a file with one section.
 func observeTree(data []byte, format string) (*observation, error) {
+	all, err := observeTreeAll(data, format)
+	if err != nil {
+		return nil, err
+	}
+	if len(all) != 1 {
+		return nil, fmt.Errorf("%s: %d sections, wrote 1", format, len(all))
+	}
+	return all[0], nil
+}
+
+// observeTreeAll decodes the file with the named format and reads the flows
+// of every section (pcap: one) out of the decode tree.
+func observeTreeAll(data []byte, format string) ([]*observation, error) {
 	v, _, err := fqx.Decode(context.Background(), data, format, false)
 	if v == nil {
 		return nil, fmt.Errorf("decode failed: %v", err)
@@ -120,14 +132,22 @@ func observeTree(data []byte, format string) (*observation, error) {
 	if errs := v.Errors(); len(errs) > 0 {
 		return nil, fmt.Errorf("decode reported errors: %v", errs[0])
 	}
-	top := v
+	tops := []*decode.Value{v}
 	if format == "pcapng" {
-		secs := children(v)
-		if len(secs) != 1 {
-			return nil, fmt.Errorf("pcapng: %d sections, wrote 1", len(secs))
-		}
-		top = secs[0]
+		tops = children(v)
 	}
+	var all []*observation
+	for _, top := range tops {
+		obs, err := observeSection(top)
+		if err != nil {
+			return nil, err
+		}
+		all = append(all, obs)
+	}
+	return all, nil
+}
+
+func observeSection(top *decode.Value) (*observation, error) {
 	obs := &observation{}
 	tc := child(top, "tcp_connections")
 	if tc == nil {
@@ -189,10 +209,11 @@ func observeTree(data []byte, format string) (*observation, error) {
 
 // the observation named by the property, as one JSON text
 const jqSummary = `
-def dir: {ip: .ip, port: (.port | toactual), skipped_bytes: .skipped_bytes, stream: (.stream | tobytes | to_hex)};
+def V: tovalue({bits_format: "string"});
+def dir: {ip: (.ip | V), port: (.port | toactual({bits_format: "string"})), skipped_bytes: (.skipped_bytes | V), stream: (.stream | tobytes | to_hex)};
 def flows: {
   conns: [.tcp_connections[] | [(.client | dir), (.server | dir)]],
-  reasm: [.ipv4_reassembled[] | {src: .source_ip, dst: .destination_ip, len: .total_length, payload: (.payload | tobytes | to_hex)}]
+  reasm: [.ipv4_reassembled[] | {src: (.source_ip | V), dst: (.destination_ip | V), len: (.total_length | V), payload: (.payload | tobytes | to_hex)}]
 };
 `
 
@@ -215,15 +236,27 @@ type jqOut struct {
 	Reasm []jqReasm  `json:"reasm"`
 }
 
-// observeJQ evaluates the property's jq observation on the file.
+// observeJQ is observeJQAll for a file with one section.
 func observeJQ(x *fqx.Interp, data []byte, format string) (*observation, error) {
+	all, err := observeJQAll(x, data, format)
+	if err != nil {
+		return nil, err
+	}
+	if len(all) != 1 {
+		return nil, fmt.Errorf("%s: %d sections, wrote 1", format, len(all))
+	}
+	return all[0], nil
+}
+
+// observeJQAll evaluates the property's jq observation on every section of the file.
+func observeJQAll(x *fqx.Interp, data []byte, format string) ([]*observation, error) {
 	x.OS.Files["capture"] = data
 	defer delete(x.OS.Files, "capture")
-	sel := "."
+	sel := "[.]"
 	if format == "pcapng" {
-		sel = "(if length == 1 then .[0] else error(\"sections: \\(length)\") end)"
+		sel = "."
 	}
-	prog := jqSummary + fmt.Sprintf(`"capture" | open | decode(%q) | %s | flows | tojson`, format, sel)
+	prog := jqSummary + fmt.Sprintf(`"capture" | open | decode(%q) | %s | map(flows) | tojson`, format, sel)
 	outs, rerr, cerr := x.Eval(context.Background(), nil, prog)
 	if cerr != nil {
 		return nil, fmt.Errorf("compile: %v", cerr)
@@ -238,12 +271,24 @@ func observeJQ(x *fqx.Interp, data []byte, format string) (*observation, error) 
 	if !ok {
 		return nil, fmt.Errorf("output is %T", outs[0])
 	}
-	var jo jqOut
+	var jos []jqOut
 	dec := json.NewDecoder(strings.NewReader(s))
 	dec.UseNumber()
-	if err := dec.Decode(&jo); err != nil {
+	if err := dec.Decode(&jos); err != nil {
 		return nil, fmt.Errorf("json: %v (%.200s)", err, s)
 	}
+	var all []*observation
+	for _, jo := range jos {
+		obs, err := jqSection(jo)
+		if err != nil {
+			return nil, err
+		}
+		all = append(all, obs)
+	}
+	return all, nil
+}
+
+func jqSection(jo jqOut) (*observation, error) {
 	obs := &observation{}
 	for _, pr := range jo.Conns {
 		var pair [2]dirObs
